@@ -201,6 +201,14 @@ MintRedeemers(P, env, mint) ==
                  data |-> Enc(D(blocks[i].redeemer, "datum", P, env))] : p \in PoliciesOfBlock(blocks[i], P, env) \cap pols} :
                i \in {i \in DOMAIN blocks : ~IsAbsent(blocks[i].redeemer)}}
 
+\* two blocks with a redeemer share a policy that survives: one (mint, index) pointer cannot carry both,
+\* and nothing says which one wins
+MintRedeemerClash(P, env, mint) ==
+    LET pols == {c.policy : c \in DOMAIN mint}
+        blocks == P.tx.mints \o P.tx.burns
+        guarded == {i \in DOMAIN blocks : ~IsAbsent(blocks[i].redeemer)}
+    IN  \E i, j \in guarded : i # j /\ (PoliciesOfBlock(blocks[i], P, env) \cap PoliciesOfBlock(blocks[j], P, env) \cap pols) # {}
+
 \* reward account a withdrawal names: a stake address denotes itself (29 bytes)
 IsStakeAddr(v) == v.k = "address" /\ Len(v.v) = 29 /\ v.v[1] \in {224, 225, 240, 241}
 WithdrawalOf(w, P, env) ==
@@ -300,6 +308,7 @@ DenoteTx(P, env) ==
                  \o <<donation>> \o scripts \o certs \o pubs
     IN  IF \E i \in DOMAIN parts : IsErr(parts[i]) THEN [k |-> "error", why |-> (parts[CHOOSE i \in DOMAIN parts : IsErr(parts[i])]).why]
         ELSE IF \E i \in DOMAIN parts : IsUnspec(parts[i]) THEN [k |-> "unspec"]
+        ELSE IF MintRedeemerClash(P, env, mint.val) THEN [k |-> "unspec"]
         ELSE [k |-> "tx",
               mayReject |-> mint.lenient,      \* an error is admitted too; if a transaction is emitted it must be this one
               inputs |-> AllInputRefs(P, env),
